@@ -56,6 +56,22 @@ func (t *T) Version(tag string, size int64) string {
 // Reader delivers bytes [off, off+n) of version tag.
 func (t *T) Reader(tag string, off, n int64) io.Reader { return bytes.NewReader(gen(tag, off, n)) }
 
+// ReadSeekCloser is what a source-file handle offers.
+type ReadSeekCloser interface {
+	io.Reader
+	io.Seeker
+	io.Closer
+}
+
+type rsc struct{ *bytes.Reader }
+
+func (rsc) Close() error { return nil }
+
+// Readable is an open source file holding bytes [off, off+n) of version tag.
+func (t *T) Readable(tag string, off, n int64) ReadSeekCloser {
+	return rsc{bytes.NewReader(gen(tag, off, n))}
+}
+
 type failingReader struct {
 	r io.Reader
 }
